@@ -335,3 +335,53 @@ struct DerivFacts {
     return false;
   }
 };
+
+// ---------------------------------------------------------------------------------
+// Viable prefixes (appendix A.5): is u a prefix of a sentence of G'' ( = G with `error' as an
+// ordinary terminal, start rule S'' : S $, plus S'' : error $ unless S has the rule S : error)?
+struct RefVP {
+  Ref R;
+  GFacts F;
+  std::vector<uint32_t> P;   // P[A] bit i: u[i..n) is a proper-or-empty prefix of a string derived from A ("straddles" the end)
+  bool implicit_rule;
+  RefVP(const Gram &g, const std::vector<int> &u) : R(g, u), F(g) {
+    implicit_rule = true;
+    for (auto &r : g.rules) if (r.lhs == g.start() && r.rhs.size() == 1 && r.rhs[0] == g.ERR()) implicit_rule = false;
+    int n = R.n;
+    P.assign(R.NN, 0);
+    for (int A = 0; A < R.NN; A++) if (F.productive[A]) P[A] |= 1u << n;
+    bool ch = true;
+    while (ch) {
+      ch = false;
+      for (auto &r : g.rules) {
+        // all symbols of the rule must be productive for the rule to take part in a sentence
+        bool ok = true; for (int s : r.rhs) if (!g.is_term(s) && !F.productive[g.nt_index(s)]) ok = false;
+        if (!ok) continue;
+        for (int i = 0; i <= n; i++) {
+          uint32_t cur = 1u << i;     // positions reachable after the symbols before j
+          bool hit = false;
+          for (size_t j = 0; j < r.rhs.size() && cur && !hit; j++) {
+            int s = r.rhs[j];
+            // symbol j straddles the end from some reachable position p
+            for (int p = 0; p <= n && !hit; p++) if (cur >> p & 1) {
+              if (g.is_term(s)) { if (p == n) hit = true; }
+              else if (P[g.nt_index(s)] >> p & 1) hit = true;
+            }
+            cur = R.step(s, cur);
+          }
+          if (hit && !(P[r.lhs] >> i & 1)) { P[r.lhs] |= 1u << i; ch = true; }
+        }
+      }
+    }
+  }
+  bool sentence() const {
+    if (R.sentence()) return true;
+    return implicit_rule && R.n == 1 && R.u[0] == R.g.ERR();
+  }
+  bool viable() const {
+    if (R.n == 0) return true;                 // S'' : error $ exists or S productive; the empty prefix is always viable for an accepted grammar
+    if (R.sentence()) return true;
+    if (P[R.g.start()] & 1u) return true;
+    return implicit_rule && R.n == 1 && R.u[0] == R.g.ERR();
+  }
+};
